@@ -102,7 +102,8 @@ fn extract_class(
     } else {
         None
     };
-    // position is a pair: members at the same place keep the order in which they were defined
+    // position is a pair: members at the same place keep the order in which they were defined,
+    // and a new constructor comes first of those
     let mut body_name_stmts: HashMap<Core, ((usize, usize), Core)> = match body {
         Some(Core::Block { statements }) => statements,
         Some(other) => vec![other],
@@ -113,16 +114,16 @@ fn extract_class(
     .map(|(i, stmt)| {
         // function two further to leave place for init
         let (pos, key) = match stmt {
-            Core::FunDef { id, .. } => ((i + 2, i), Core::Id { lit: id.clone() }),
+            Core::FunDef { id, .. } => ((i + 2, i + 1), Core::Id { lit: id.clone() }),
             Core::FunDefOp { op, .. } => (
-                (i + 2, i),
+                (i + 2, i + 1),
                 Core::Id {
                     lit: format!("{op}"),
                 },
             ),
-            Core::VarDef { var, .. } => ((i, i), var.deref().clone()),
+            Core::VarDef { var, .. } => ((i, i + 1), var.deref().clone()),
             _ => (
-                (i, i),
+                (i, i + 1),
                 Core::Id {
                     lit: String::from("@"),
                 },
